@@ -140,11 +140,11 @@ def run(tier, seed):
             "signers", "protocol_message", "signed_message", "aggregate_verification_key", "signature", "signed_entity_type"}
     missing = need - set(by_field)
     if missing:
-        raise vlib.ToolError(f"vacuity: no single-field change realised for {sorted(missing)}")
+        c.defer(f"vacuity: no single-field change realised for {sorted(missing)}")
     rts = [r for r in allr if r["ev"] == "RoundTrip"]
     ok_verdicts = len([r for r in rts if r["verdict_before"] == "ok"])
     if ok_verdicts == 0:
-        raise vlib.ToolError("vacuity: no round trip of a certificate the real verifier accepts")
+        c.defer("vacuity: no round trip of a certificate the real verifier accepts")
     c.cov["single_field_changes_by_field"] = by_field
     c.cov["single_field_changes_same_hash"] = len([r for r in single if not r["hash_differs"]])
     c.cov["sub_precision_parameter_changes"] = len([r for r in allr if r["ev"] == "FieldChange" and r["field"] in ("params", "protocol_parameters") and not r["changed"]])
